@@ -112,9 +112,12 @@ def seq_term(body, in_sub):
 
 
 def make_program(body, placement, varkind="auto"):
-    """placement: 'main' | 'sub' ; varkind: 'auto' | 'reserved'"""
+    """placement: 'main' | 'sub' ; varkind: 'auto' | 'reserved' | 'abi' (abi.Uint64 set/get) | 'raw' (bare
+    ScratchSlot through ScratchStore/ScratchLoad)"""
     va = ["u", 11] if varkind == "reserved" else "u"
     vb = ["u", 12] if varkind == "reserved" else "u"
+    if varkind in ("abi", "raw"):
+        va = vb = varkind
     if placement == "main":
         main = ["Seq"] + [stmt_term(s, False) for s in body] + [["Int", 1]]
         return {"mode": "A", "vars": {"a": va, "b": vb, "i": "u"}, "subs": {}, "main": main}
@@ -122,6 +125,8 @@ def make_program(body, placement, varkind="auto"):
            "local_types": {}}
     if varkind == "reserved":
         sub["local_slots"] = {"a": 11, "b": 12}
+    if varkind in ("abi", "raw"):
+        sub["local_types"] = {"a": varkind, "b": varkind}
     return {"mode": "A", "vars": {}, "subs": {"f": sub}, "main": ["Seq", ["Call", "f"], ["Int", 1]]}
 
 
